@@ -650,7 +650,7 @@ def wl_cia_sweep(ctx, rng):
         seq.append(t)
         if j % 100 == 99:
             seq.append(temps[int(rng.integers(0, j // 2))])
-    seq += [temps[int(k)] for k in rng.integers(0, 40, 8)]
+    seq += [temps[int(k)] for k in rng.integers(0, 40, 4)] + [temps[int(k)] for k in rng.integers(0, n, 10)]
     judged = 0
     for j, t in enumerate(seq):
         model['T'] = t
@@ -658,7 +658,7 @@ def wl_cia_sweep(ctx, rng):
         if live is None:
             continue
         judge_components(ctx, model, contribs, ops, cias, spec, live['wn'])
-        if j % 100 == 0 or j >= len(seq) - 8:
+        if j % 100 == 0 or j >= len(seq) - 14:
             base.oracle(ctx, live, spec)
         judged += 1
     if judged > 1000:
